@@ -357,4 +357,46 @@ theorem isNaN_false (f : IEEE.Format) (b : Nat) (h : IEEE.isNaN f b = false) :
   unfold IEEE.isNaN at h
   simp [he] at h; exact h
 
+theorem val4_as_dy (s e n : Int) (mb : Nat) :
+    val4 s e n ((2:Int)^mb) = (s : Rat) * Dy.toRat ⟨n, e - (mb : Int)⟩ := by
+  unfold val4 Dy.toRat
+  have h2 := two_pow_ne_zero_rat mb
+  have e1 : (2:Rat)^(e - (mb:Int)) * (2:Rat)^mb = (2:Rat)^e := zpow_sub_nat e mb
+  have e2 : (((2:Int)^mb : Int) : Rat) = (2:Rat)^mb := by simp [Rat.intCast_pow]
+  rw [e2, ← e1]
+  grind
+
+/-- what `from_ieee754_*` denote, for a generic format: sign · significand · 2^exponent of the encoding -/
+theorem from_parts_value (e_max e_sub e_bias : Int) (mb : Nat) (S E M : Nat)
+    (hS : S < 2) (hne : (E : Int) ≠ e_max) (hM1 : M < 2^mb) :
+    ∃ x, from_parts (S : Int) (E : Int) (M : Int) e_max e_sub e_bias mb = some x ∧ x.Finite ∧
+      x.value = (if S = 0 then 1 else -1 : Rat) *
+        Dy.toRat (if E = 0 then ⟨(M : Int), e_sub - (mb : Int)⟩ else ⟨(2:Int)^mb + (M : Int), (E : Int) - e_bias - (mb : Int)⟩) := by
+  have hmbpos := two_pow_pos_int mb
+  have hsg : (((if ((S : Int) == 0) = true then (1:Int) else -1) : Int) : Rat) = (if S = 0 then 1 else -1 : Rat) := by
+    rcases (show S = 0 ∨ S = 1 by omega) with rfl | rfl <;> simp
+  have hsg2 : (if ((S : Int) == 0) = true then (1:Int) else -1) = 1 ∨ (if ((S : Int) == 0) = true then (1:Int) else -1) = -1 := by
+    rcases (show S = 0 ∨ S = 1 by omega) with rfl | rfl <;> simp
+  unfold from_parts
+  have : ((E : Int) == e_max) = false := by simp [hne]
+  simp only [this, Bool.false_eq_true, if_false, shl_one]
+  by_cases ce0 : E = 0
+  · subst ce0
+    simp only [Int.natCast_zero, beq_self_eq_true, if_true]
+    rw [set_semp_finite _ _ _ _ hmbpos]
+    obtain ⟨y, hy⟩ := adjust_semp_total' ({ s := (if ((S : Int) == 0) = true then 1 else -1), e := e_sub, m := (M : Int), p := (2:Int)^mb } : FPNum)
+      (by exact hmbpos) (by show (0:Int) ≤ (M : Int); omega)
+    have post := adjust_semp_spec _ y (by exact hmbpos) (by show (0:Int) ≤ (M : Int); omega) hy
+    refine ⟨y, hy, ⟨by rw [post.s]; exact hsg2, post.m_nonneg, post.p_pos, post.inf, post.nan⟩, ?_⟩
+    rw [post.value, value_eq]; simp only []
+    rw [val4_as_dy, hsg]
+  · have ce0' : ((E : Int) == 0) = false := by simp; omega
+    simp only [ce0', Bool.false_eq_true, if_false, ce0]
+    rw [set_semp_finite _ _ _ _ hmbpos, lor_hidden_bit M mb hM1]
+    obtain ⟨y, hy⟩ := adjust_semp_total' ({ s := (if ((S : Int) == 0) = true then 1 else -1), e := (E : Int) - e_bias, m := (2:Int)^mb + (M : Int), p := (2:Int)^mb } : FPNum)
+      (by exact hmbpos) (by show (0:Int) ≤ (2:Int)^mb + (M : Int); omega)
+    have post := adjust_semp_spec _ y (by exact hmbpos) (by show (0:Int) ≤ (2:Int)^mb + (M : Int); omega) hy
+    refine ⟨y, hy, ⟨by rw [post.s]; exact hsg2, post.m_nonneg, post.p_pos, post.inf, post.nan⟩, ?_⟩
+    rw [post.value, value_eq]; simp only []
+    rw [val4_as_dy, hsg]
 end C12
